@@ -104,7 +104,28 @@ class Table:
             return uniq[0]
         return ast.Call(func=ast.Name(id="<alt>", ctx=ast.Load()), args=uniq, keywords=[])
 
-    def rows_of(self, fi: FuncInfo, env0: Dict[str, ast.expr]) -> List[Row]:
+    def _inline_return(self, s: ast.Return, fi: FuncInfo, env, conds, depth) -> Optional[List[Row]]:
+        """`return helper(...)` where helper is a small multi-return repo function: splice the helper's rows in."""
+        if depth >= self.inline_depth or not isinstance(s.value, ast.Call):
+            return None
+        tg = self.ctx.types.resolve_call(s.value, fi)
+        if len(tg.repo) != 1 or tg.ctor or tg.ext or tg.by_name or tg.unknown:
+            return None
+        g = tg.repo[0]
+        rets = [n for n in self.ctx.types.nodes_in(g, ast.Return)]
+        if len(rets) < 2 or g.is_abstract or list(self.ctx.types.nodes_in(g, (ast.For, ast.While, ast.Try))):
+            return None
+        env2: Dict[str, ast.expr] = {}
+        for pname, arg in self.ctx.types.bind_args(g, s.value).items():
+            env2[pname] = self.canon(arg, fi, env)
+        if g.cls is not None and not g.is_static and g.params and isinstance(s.value.func, ast.Attribute):
+            env2[g.params[0]] = self.canon(s.value.func.value, fi, env)
+        for pn in g.params:
+            env2.setdefault(pn, ast.Name(id="<unbound:%s>" % pn, ctx=ast.Load()))
+        sub = self.rows_of(g, env2, depth + 1)
+        return [Row(list(conds) + r.conds, r.kind, r.result, fi, s) for r in sub]
+
+    def rows_of(self, fi: FuncInfo, env0: Dict[str, ast.expr], depth: int = 0) -> List[Row]:
         rows: List[Row] = []
         count = [0]
 
@@ -118,6 +139,10 @@ class Table:
             if count[0] > MAX_PATHS:
                 raise AnalysisError("decision table of %s: too many paths" % fi.qname)
             if isinstance(s, ast.Return):
+                inl = self._inline_return(s, fi, env, conds, depth)
+                if inl is not None:
+                    rows.extend(inl)
+                    return
                 val = self.canon(s.value, fi, env) if s.value is not None else ast.Constant(None)
                 rows.append(Row(list(conds), "return", val, fi, s))
                 return
